@@ -520,6 +520,14 @@ def prop_c06(k, cs, code, ckey):
                 f0 = Bec2File(Bf3File({}, b3.parse_comps(cs)), [InitCustKeyAuthBlock(), UpdateAuthBlock(code, 7)], key)
                 binary = f0.to_binary([SoftwareCustKeyEncryptor(bytes(range(16)), ckey, 0)])
                 body_off = _header_tlvs(binary)[1]
+        except OverflowError as e:
+            # directory entries are length-prefixed with one byte: an entry of more than 255 bytes is unrepresentable
+            # entry = adr(4) stored(4) declared(4) payload-MAC(16) desc-len(1) desc entry-MAC(16)
+            big = [c for c in comps if 45 + sum(2 + len(v) for v in c.description.values()) > 255
+                   or any(len(v) > 255 for v in c.description.values())]
+            if big:
+                return "ok writer-rejects OverflowError"
+            return f"FAIL {framing}: writer raises OverflowError for representable components: {e}"
         except Exception as e:
             return f"FAIL {framing}: writer raises {type(e).__name__}: {e}"
         try:
@@ -652,7 +660,7 @@ def prop_c07splice(k1, k2, bs, es, ephs):
     """blocks wrapping two different keys spliced into one header must be rejected"""
     wencs = parse_encs(es)
     blocks = parse_blocks(bs)
-    if len(blocks) < 2:
+    if len(blocks) < 2 or k1 == k2:
         return "ok n/a"
     with Oracle(parse_nats(ephs)):
         a = Bec2File(Bf3File(), parse_blocks(bs), unhx(k1)).to_binary(wencs)
